@@ -42,8 +42,9 @@ def make_file(funcs):
     return src
 
 
-def model(funcs, flags):
-    """Reference model of the documented runner. Returns (verdicts: list of (name, verdict), exit_nonzero, executed names)."""
+def model(funcs, flags, xpass_stops=True):
+    """Reference model of the documented runner. Returns (verdicts: list of (name, verdict), exit_nonzero, executed names).
+    xpass_stops: whether `-x` ("stop on first failure") also stops after an XPASS - the how-to does not say, both are accepted."""
     kw = None
     if "-k" in flags:
         kw = flags[flags.index("-k") + 1]
@@ -68,7 +69,7 @@ def model(funcs, flags):
         verdicts.append((name, v))
         if v in ("FAILED", "XPASS"):
             failed = True
-            if stop:
+            if stop and (v == "FAILED" or xpass_stops):
                 break
     return verdicts, failed, executed
 
@@ -167,6 +168,10 @@ def run(tier):
         funcs, flags = sc[k]
         want_v, want_fail, want_exec = model(funcs, flags)
         got_v = parse_verdicts(stdout)
+        if "-x" in flags:
+            alt = model(funcs, flags, xpass_stops=False)
+            if alt[0] != want_v and [n for n, _ in got_v] == [n for n, _ in alt[0]]:
+                want_v, want_fail, want_exec = alt  # the runner continues after an XPASS: equally documented
         n_fn += len(want_v)
         case = {"flags": flags, "test_file": src, "stdout": stdout[-2500:], "exit": rc, "expected_verdicts": want_v, "executed": executed}
         tag = "flags:" + (" ".join(flags) or "-")
